@@ -1,5 +1,5 @@
 #!/bin/sh
-# tools/confirm_mutant.sh <srcdir with patch.diff demo.py notes.md> <seed-id> <PROP> "<needs>"
+# tools/confirm_mutant.sh <srcdir with patch.diff demo.py [notes.md]> <seed-id> <PROP> "<needs>"
 # Confirms a property-breaking change independently: demo fails with it / passes without it,
 # the repository's own test-suite still passes with it; then stores it as /verif/seeded/<seed-id>/.
 set -u
@@ -8,27 +8,27 @@ here="$(cd "$(dirname "$0")/.." && pwd)"
 wt="$(mktemp -d /tmp/confirm-XXXXXX)"; rmdir "$wt"
 git -C /repo worktree add --detach "$wt" HEAD -q || exit 9
 cp "$src/demo.py" "$wt/_demo.py"
-sed "s#/tmp/mut-$prop#$wt#g" "$src/demo.py" > "$wt/_demo.py"
-( cd "$wt" && PYTHONPATH="$wt/Lib" /venv/bin/python _demo.py > /tmp/confirm_clean.out 2>&1 ); clean_rc=$?
-if ! git -C "$wt" apply "$src/patch.diff"; then echo "$sid: PATCH DOES NOT APPLY"; git -C /repo worktree remove --force "$wt"; exit 9; fi
-( cd "$wt" && PYTHONPATH="$wt/Lib" /venv/bin/python _demo.py > /tmp/confirm_mut.out 2>&1 ); mut_rc=$?
-( cd "$wt" && PYTHONPATH="$wt/Lib" /venv/bin/python -m pytest -q -p no:cacheprovider Tests -n 5 2>&1 | tail -1 ) > /tmp/confirm_tests.out
-tests="$(cat /tmp/confirm_tests.out)"
+( cd "$wt" && PYTHONPATH="$wt/Lib" PYTHONDONTWRITEBYTECODE=1 timeout 600 /venv/bin/python _demo.py > "$wt.clean.out" 2>&1 ); clean_rc=$?
+if ! git -C "$wt" apply "$src/patch.diff"; then echo "$sid: PATCH DOES NOT APPLY"; git -C /repo worktree remove --force "$wt"; rm -f "$wt".*.out; exit 9; fi
+( cd "$wt" && PYTHONPATH="$wt/Lib" PYTHONDONTWRITEBYTECODE=1 timeout 600 /venv/bin/python _demo.py > "$wt.mut.out" 2>&1 ); mut_rc=$?
+rm -f "$wt/_demo.py"
+tests="$( cd "$wt" && PYTHONPATH="$wt/Lib" /venv/bin/python -m pytest -q -p no:cacheprovider --timeout=900 Tests -n ${CONFIRM_N:-8} 2>&1 | tail -1 )"
 git -C /repo worktree remove --force "$wt"
 echo "$sid: demo clean rc=$clean_rc, demo mutated rc=$mut_rc, tests: $tests"
-case "$tests" in *"4704 passed"*) ok=1;; *) ok=0;; esac
-if [ "$clean_rc" = 0 ] && [ "$mut_rc" != 0 ] && [ "$ok" = 1 ]; then
+case "$tests" in *failed*|*error*) ok=0;; *"4704 passed"*) ok=1;; *) ok=0;; esac
+if [ "$clean_rc" = 0 ] && [ "$mut_rc" != 0 ] && [ "$mut_rc" != 124 ] && [ "$ok" = 1 ]; then
   d="$here/seeded/$sid"; mkdir -p "$d"
   cp "$src/patch.diff" "$d/patch.diff"; cp "$src/demo.py" "$d/demo.py"; [ -f "$src/notes.md" ] && cp "$src/notes.md" "$d/notes.md"
   /venv/bin/python - "$d" "$prop" "$needs" "$tests" <<'PY'
 import json, sys
 d, prop, needs, tests = sys.argv[1:5]
-json.dump({"property": prop, "needs_to_manifest": needs,
+json.dump({"property": prop, "needs_to_manifest": needs, "origin": "independent sub-agent given only the property text and a scratch worktree",
            "confirmed": {"demo_on_clean_tree": "exit 0", "demo_on_changed_tree": "exit != 0", "repository_tests_with_change": tests,
-                         "how": "tools/confirm_mutant.sh: scratch worktree of /repo HEAD, patch applied with git apply, demo.py run before/after, pytest Tests -n 5"},
-           "caught_by": []}, open(d + "/meta.json", "w"), indent=1)
+                         "how": "tools/confirm_mutant.sh: scratch worktree of /repo HEAD, patch applied with git apply, demo.py run before/after (cwd = worktree, PYTHONPATH = worktree/Lib), pytest Tests -n 8"},
+           "caught_by": [], "missed_by": []}, open(d + "/meta.json", "w"), indent=1)
 PY
   echo "$sid: CONFIRMED and stored"
 else
-  echo "$sid: NOT confirmed"
+  echo "$sid: NOT confirmed"; tail -5 "$wt.clean.out" "$wt.mut.out" 2>/dev/null
 fi
+rm -f "$wt".*.out
